@@ -8,8 +8,11 @@ documented meaning, `answer` what a search must return (`WM/Spec/Search.lean`). 
 * `ValidOracle so` — whatever binary tree the implementation builds over the clauses of a compound
   (`make_binary_tree`, `make_weighted_tree`: any shape, any order), its leaves are the clauses;
 * `PosQ q`, `PosLeaf ls s` — boosts and leaf scores are positive (the array union decides
-  membership by `score > 0`, `ListMatcher(all_weights=0)` scores 1: see the negative examples);
-* `NoEmptyTerm s` — no document contains the empty term (`MultiTerm.matcher` skips it).
+  membership by `score > 0`, `ListMatcher(all_weights=0)` scores 1: see the negative examples).
+
+The empty term is a term like any other (an ID field whose value is "" indexes it): since the
+repair of `MultiTerm.matcher` the expansion of a multi-term query no longer skips it, so no
+hypothesis about it is needed.
 -/
 namespace WM.C01
 open WM.Search WM.Compile
@@ -18,9 +21,9 @@ open WM.Search WM.Compile
     satisfy the query — in every search context (scored or not, `needs_current` or not), for every
     binary tree shape over the clauses, and for each `Or` strategy the implementation may pick. -/
 theorem matcher_den (ls : LeafScore) (so : ShapeOracle) (s : Segment) (hso : ValidOracle so)
-    (hleaf : PosLeaf ls s) (hne : NoEmptyTerm s) (q : Query) (hq : PosQ q) (ctx : Ctx) :
+    (hleaf : PosLeaf ls s) (q : Query) (hq : PosQ q) (ctx : Ctx) :
     (compile ls so s ctx q).map (·.id) = s.live.filter (fun i => sat q (s.doc i)) :=
-  compile_ids ls so s hso hleaf hne q hq ctx
+  compile_ids ls so s hso hleaf q hq ctx
 
 /-- Running one matcher per segment and shifting by the segment offsets (`Collector.run`,
     `Searcher.docs_for_query`) yields exactly `answer`: the live documents of the whole index that
@@ -30,10 +33,14 @@ theorem segments (ls : LeafScore) (so : ShapeOracle) (hso : ValidOracle so) (idx
     (run ls so ctx q idx).map (·.id) = answer q idx :=
   runFrom_ids ls freqLeaf so hso q hq ctx idx 0 hok
 
-/-- Every access path sees the same documents: two runs in arbitrary contexts (scored stepping,
-    `terms=True`, unscored `all_ids`, `docs_for_query`'s boolean context), with arbitrary tree
-    shapes, return the same id list, namely `answer`; its length is what `len(results)` must
-    report for every limit; and the ranked order of a scored search is a permutation of it. -/
+/-- The matched set does not depend on the search context or on the tree shapes: two runs with
+    arbitrary contexts `(needs_current, scored)` — the ones behind scored stepping, `terms=True`,
+    unscored collection and `docs_for_query`'s boolean context — and arbitrary valid shape oracles
+    return the same id list, namely `answer` (first conjunct; the second, its length, is a corollary
+    of `segments`).  The third conjunct is a fact about the specification only: `rankAll` (the order a
+    scored search must return) is a permutation of `answer`.  `limit`, `sortedby`, filters and the
+    `Query.docs` overrides (`Require.docs`, `AndMaybe.docs`) are not parameters of this statement: they
+    are compared on the real code by the end-to-end run (and are C05/C14's theorems). -/
 theorem paths_agree (ls : LeafScore) (so so' : ShapeOracle) (hso : ValidOracle so) (hso' : ValidOracle so')
     (idx : Index) (hok : IndexOK ls idx) (q : Query) (hq : PosQ q) (ctx ctx' : Ctx) :
     (run ls so ctx q idx).map (·.id) = (run ls so' ctx' q idx).map (·.id) ∧
@@ -66,7 +73,7 @@ theorem exIdx_ok : IndexOK freqLeaf exIdx := by
   have hwf : wfSegment s = true := by
     simp only [exIdx, List.mem_cons, List.not_mem_nil, or_false] at hs
     rcases hs with rfl | rfl <;> decide
-  exact ⟨posLeaf_freq_of_wf hwf, noEmpty_of_wf hwf⟩
+  exact posLeaf_freq_of_wf hwf
 
 theorem exQ_pos : PosQ exQ := posQ_of_posQuery exQ (by decide)
 
